@@ -1,7 +1,7 @@
 (* Model of the parts of C01 that need sqrt / division / order: norm, accuracy (plain branch),
    accuracy_on_data, erank, uniform mean.  Executed at the float instance; theorems at R. *)
 From Coq Require Import List Arith Lia PeanoNat ZArith.
-From TV Require Import Num.Ops Lin.Tab Lin.BigSum TT.Chain Model.ActOne.
+From TV Require Import Num.Ops Lin.Tab Lin.BigSum TT.Chain Model.ActOne Model.ActOneX.
 Import ListNotations.
 
 Section ActOneR.
@@ -11,7 +11,7 @@ Infix "+" := (oadd K). Infix "*" := (omul K). Infix "-" := (osub K). Infix "/" :
 
 (* act_one.norm (use_stab=False):  v = mul_scalar(Y, Y);  sqrt(v) if v > 0 else 0 *)
 Definition norm (Y : list (core T)) : T :=
-  let v := mul_scalar K Y Y in if oltb K 0 v then osqrt K v else 0.
+  let v := mul_scalar_x K Y Y in if oltb K 0 v then osqrt K v else 0.
 (* act_two.accuracy on its middle branch (no saturation): ||Y1 - Y2|| / ||Y2|| *)
 Definition accuracy (Y1 Y2 : list (core T)) : T := norm (sub K Y1 Y2) / norm Y2.
 (* data.accuracy_on_data: ||get_many(Y, I) - y|| / ||y|| *)
